@@ -177,6 +177,10 @@ def _use_set(prog, rep):
                             "the byte length of the indent %s is used for more than an emptiness test: what follows the indent would "
                             "depend on its characters" % D(a), site=t["span"])
                     continue
+                if srcs and cal.name in ("PartialEq::eq", "PartialEq::ne") and len(args) == 2 and ("str", "") in args:
+                    n += 1      # `indent == ""` is the EMPTY idiom
+                    r.check(True, "use:eq-empty", "an indent is only compared with the empty string (EMPTY idiom)", "== \"\"", "", site=t["span"])
+                    continue
                 if srcs:
                     n += 1
                     r.check(cal.name in ALLOWED, "use:%s" % cal.name, "indent strings only flow into display_width / is_empty / to_owned",
